@@ -70,13 +70,13 @@ CLAIMED = {
              "the override sees it set), None at once with no read when not waiting for an NRC, None for silence/positive and the NRC for a negative reply when waiting "
              "(after any number of 0x78, by induction), services without subfunction unchanged, suppression cleared on every exit and later steps identical to never "
              "having entered. Tied by random well-nested histories on the real client (real with-blocks left normally and by exception), op by op against udsdrv, plus an "
-             "independent frame construction. Call level for every service family (Props/C09Call): inside a block a method built on callWith returns None at once with exactly the bit-7 frame sent when not waiting; None after silence or an in-time positive reply when waiting; a service without sub-function is unaffected.",
+             "independent frame construction. Call level for every service family (Props/C09Call): inside a block a method built on callWith returns None at once with exactly the bit-7 frame sent when not waiting; None after silence or an in-time positive reply when waiting; a service without sub-function is unaffected. Over arbitrary histories (Props/C09Hist.hrun_flags): the suppress / override flags after any sequence of operations are a function of the block operations alone; never_outlives_its_block.",
         design_ref='DESIGN.md §3 C09',
         technique='Lean 4 proof (induction over schedules / history steps) + differential history suite'),
     'C10': dict(
         text="Lean theorems over the call-level model: the client state changes only through an accepted session change under a post-2006 edition with server timing "
              "enabled; then P2 = first 16-bit field (ms) and P2* = second x 10 (ms) and nothing else changes; these are the limits later requests use (with C05). Tied by "
-             "history suites on the real client under the virtual clock (exact for dyadic values) and by every 16-bit boundary pair + random pairs checked directly against a/1000, b*10/1000.",
+             "history suites on the real client under the virtual clock (exact for dyadic values) and by every 16-bit boundary pair + random pairs checked directly against a/1000, b*10/1000. Over arbitrary histories (Props/C10Hist.history_timing): a changed timing implies an accepted session change under an edition > 2006 with server timing enabled somewhere in the history.",
         design_ref='DESIGN.md §3 C10',
         technique='Lean 4 proof (case analysis + history step invariant) + differential history suite under virtual clock'),
     'C11': dict(
